@@ -82,6 +82,12 @@ CLAIMED["C08"] = dict(
         "A reference state machine consumes the same history (a frame counts when a read call consumes it) and says which frames must be on the wire: one Pong per Ping consumed while open, same payload, arrival order, ahead of later application frames; none for Pongs or after our Close; exactly one Close echoing the peer's code (1000 if none, 1002 if invalid) or ours; no data frame after it. "
         "Reads must report end-of-stream after the closing handshake and io.EOF + a 1006 Close frame on unexpected EOF; writes and second closes must be refused; State() must lie in the set of stages the model allows.",
    note="Peer frames are single-frame messages so that each read call consumes a known number of frames. After a connection reset nothing is judged except that calls return and the wire stays a prefix of what the history called for. Transport EOF is a half-close.")
+CLAIMED["C17"] = dict(
+   technique="deterministic simulation: seeded interleavings of peer events, application calls and poll cycles on the production transport stack, callback ledger + wire parser",
+   text="Client Stream over the real AsyncAdapter on the stub kernel's TCP socket (send buffer capacity drawn per run). Tape-chosen interleavings of peer events (data, ping, pong, close) with AsyncNextFrame/AsyncNextMessage, AsyncWrite, AsyncWriteFrame, AsyncFlush, AsyncClose and poll cycles, "
+        "in particular an application write started while the read path's automatic Pong/Close flush is still waiting for writability and a read started while a write is in flight (both counted by probes; 6 directed shapes). "
+        "Oracle: every callback exactly once by quiescence, each read with the peer's next frame/message, writes complete in submission order without error, the wire parses into whole frames with every submitted frame and every owed Pong exactly once, IO.Pending() returns to 0.",
+   note="At most one application read and one application write in flight; the second writer is always the read path's control-reply flush.")
 
 NOT_YET = {
 }
